@@ -188,6 +188,10 @@ pub struct C10Plan {
     pub seqn: Vec<FOp>,
     pub bystander_bytes: usize,
     pub garbage: Option<u8>,
+    /// the endpoint's application shuts down its write side of the victim stream (and of every
+    /// stream the fault sequence opens) before holding it: the flow is half-closed locally
+    #[serde(default)]
+    pub victim_shutdown: bool,
 }
 
 const ID_BYS: u32 = 0xb0;
@@ -228,6 +232,7 @@ async fn run_c10_async(plan: C10Plan, sched: Sched, record: bool) -> Outcome {
     let sp = s.sim.spawner();
     {
         let (m, v, br, held, ae, sp2) = (s.mux.clone(), viol.clone(), bys_read.clone(), held.clone(), accept_end.clone(), sp.clone());
+        let vshut = plan.victim_shutdown;
         s.sim.spawn("acceptor", CLS_OTHER, async move {
             loop {
                 match m.accept_stream_channel().await {
@@ -289,6 +294,10 @@ async fn run_c10_async(plan: C10Plan, sched: Sched, record: bool) -> Outcome {
                             });
                         } else {
                             // victim and every stream the fault sequence opens: held, never read
+                            let mut st = st;
+                            if vshut {
+                                st.shutdown().await.ok();
+                            }
                             held.borrow_mut().push(st);
                         }
                     }
